@@ -362,6 +362,15 @@ class ExprMixin:
             az = z3.If(a.z, 1, 0) if a.kind == "bool" else a.z
             bz = z3.If(b.z, 1, 0) if b.kind == "bool" else b.z
             kind = "V" if "V" in (a.kind, b.kind) else "int"
+            if kind == "V":
+                # arithmetic of the family's VALUE type (int of some width, or
+                # float): uninterpreted operations, so a clause about values is
+                # the formula itself (C12); + is commutative (ints and IEEE floats)
+                from .spec import VADD, VMUL, VSUB
+                f = {ast.Add: VADD, ast.Mult: VMUL, ast.Sub: VSUB}.get(type(op))
+                if f is None:
+                    raise Unsupported("value arithmetic " + type(op).__name__)
+                return SV("V", f(az, bz))
             if isinstance(op, ast.Add):
                 return SV(kind, az + bz)
             if isinstance(op, ast.Sub):
